@@ -24,6 +24,8 @@ ONCE_CRASHING = [
     {"root.jst": b"JSIGHT 0.3\nTYPE @r any\nURL /a/{id}\n  Path @r\n  GET\n    200 any\n"},
     {"root.jst": b"JSIGHT 0.3\nTYPE @b\n{\"a\": @a}\nTYPE @a\n1\nENUM @e\n[1,2]\n"},
     {"root.jst": b"JSIGHT 0.3\nURL /a\n(\nINCLUDE e.jst\n)\n", "e.jst": b""},
+    {"root.jst": b'JSIGHT 0.3\nTYPE @a any\nURL /x/{id}\n  Path\n  {\n    "id": @a\n  }\n  GET\n    200 any\n'},
+    {"root.jst": b'JSIGHT 0.3\nTYPE @e empty\nGET /x/{id}\n  Path\n  {\n    "id": @e\n  }\n  200 any\n'},
     {"root.jst": b""},
     {"root.jst": b"\n\n"},
 ]
